@@ -179,6 +179,15 @@ where
         std::iter::from_fn(move || {
             if let Some(idx) = split_points.next() {
                 let need_hyphen = !word[..idx].ends_with('-');
+                #[cfg(feature = "verif-hooks")]
+                crate::verif::emit(
+                    "split_words.piece",
+                    &[
+                        crate::verif::n(prev),
+                        crate::verif::n(idx),
+                        i64::from(need_hyphen),
+                    ],
+                );
                 let w = Word {
                     word: &word.word[prev..idx],
                     width: display_width(&word[prev..idx]),
@@ -190,6 +199,8 @@ where
             }
 
             if prev < word.word.len() || prev == 0 {
+                #[cfg(feature = "verif-hooks")]
+                crate::verif::emit("split_words.last", &[crate::verif::n(prev)]);
                 let w = Word {
                     word: &word.word[prev..],
                     width: display_width(&word[prev..]),
